@@ -13,8 +13,6 @@ import (
 	"unicode/utf8"
 
 	"github.com/ohler55/slip"
-	"golang.org/x/text/cases"
-	"golang.org/x/text/language"
 )
 
 // - 0123456789abcdef0123456789abcdef
@@ -502,9 +500,7 @@ func (c *control) dirCase(colon, at bool, params []any) {
 	case colon && at:
 		c.out = append(c.out, bytes.ToUpper(c2.out)...)
 	case colon:
-		c2.out = bytes.ToLower(c2.out)
-		caser := cases.Title(language.English)
-		c.out = append(c.out, caser.Bytes(c2.out)...)
+		c.out = append(c.out, capitalize(string(c2.out))...)
 	case at:
 		// Only the first word is capitalized whatever separates the words.
 		rs := []rune(string(bytes.ToLower(c2.out)))
